@@ -165,19 +165,47 @@ Variable out_eqb_refl : forall y, out_eqb y y = true.
 Lemma all_empty_map_nil {A B} (ts : list (list A)) : all_empty (map (fun _ => @nil B) ts) = true.
 Proof. induction ts; cbn; auto. Qed.
 
-Theorem atomic_executions_are_linearizable st ts st' obs (final : St -> bool) :
-  Exec st ts st' obs -> final st' = true -> Lin final st obs.
+(* the comparison of results need only be reflexive on the results that were actually observed *)
+Definition clean_obs (obs : list (list (Op * Out))) : Prop :=
+  forall i l, nth_error obs i = Some l -> forall p, In p l -> out_eqb (snd p) (snd p) = true.
+
+Lemma clean_obs_push obs i x : i < length obs -> clean_obs (push_head obs i x) ->
+  out_eqb (snd x) (snd x) = true /\ clean_obs obs.
 Proof.
-  intros H Hf. induction H as [st ts He | st ts i o t st1 y st' obs Hn Hs Hex IH].
+  intros Hi H. destruct (push_drop obs i x Hi) as [Hd [t Hn]]. split.
+  - apply (H i _ Hn). left. reflexivity.
+  - intros j l Hj p Hp. destruct (Nat.eq_dec j i) as [->|Hne].
+    + apply (H i _ Hn). right.
+      assert (E : t = l).
+      { clear -Hn Hj. revert i Hn Hj. induction obs as [|u r IH]; intros [|i] Hn Hj; cbn in *; try discriminate.
+        - injection Hn as <-. injection Hj as <-. reflexivity.
+        - eapply IH; eauto. }
+      subst t. exact Hp.
+    + apply (H j l); [|exact Hp].
+      clear -Hj Hne. revert i j Hj Hne. induction obs as [|u r IH]; intros [|i] [|j] Hj Hne; cbn in *; try discriminate; try lia; auto.
+Qed.
+
+Theorem atomic_executions_with_clean_results_are_linearizable st ts st' obs (final : St -> bool) :
+  Exec st ts st' obs -> clean_obs obs -> final st' = true -> Lin final st obs.
+Proof.
+  intros H Hc Hf. induction H as [st ts He | st ts i o t st1 y st' obs Hn Hs Hex IH].
   - apply lin_done; [apply all_empty_map_nil | exact Hf].
   - assert (Hi : i < length obs).
     { rewrite (exec_length _ _ _ _ Hex).
       assert (forall A (l : list (list A)) j, length (drop_head l j) = length l) as Hd.
       { intros A l; induction l as [|u r IHl]; intros [|j]; cbn; auto. }
       rewrite Hd. apply nth_error_Some. congruence. }
+    destruct (clean_obs_push obs i (o, y) Hi Hc) as [Hy Hc'].
     destruct (push_drop obs i (o, y) Hi) as [Hd [t' Hn']].
-    eapply lin_step; [exact Hn' | exact Hs | apply out_eqb_refl |].
-    rewrite Hd. apply IH. exact Hf.
+    eapply lin_step; [exact Hn' | exact Hs | exact Hy |].
+    rewrite Hd. apply IH; assumption.
+Qed.
+
+Theorem atomic_executions_are_linearizable st ts st' obs (final : St -> bool) :
+  Exec st ts st' obs -> final st' = true -> Lin final st obs.
+Proof.
+  intros H Hf. eapply atomic_executions_with_clean_results_are_linearizable; eauto.
+  intros i l _ p _. apply out_eqb_refl.
 Qed.
 
 End Lin.
